@@ -25,7 +25,12 @@ warnings.simplefilter("ignore")
 
 
 def mkval(spec):
-    kind, x = spec
+    kind = spec[0]
+    if kind == "l":      # ["l", ch, n, tail]: a long str, ch * n + tail, given by its generator parameters
+        return spec[1] * spec[2] + spec[3]
+    if kind == "lb":     # the same as bytes
+        return (spec[1] * spec[2] + spec[3]).encode("utf-8")
+    x = spec[1]
     return x if kind == "s" else bytes.fromhex(x)
 
 
@@ -103,7 +108,7 @@ def run_small(case):
         err = "%s: %s" % (type(e).__name__, e)
         final = None
     return {"ok": err is None, "error": err, "lens": lens, "flags": flags, "final": final, "first_cold": first_cold,
-            "hashes": hashes, "own": own_oracle(p, 1 << p, 64 - p, vals)}
+            "hashes": hashes, "own": own_oracle(p, 1 << p, 64 - p, vals), "own31": own_oracle(31, 1 << 31, 33, vals)}
 
 
 def b64(arr):
@@ -189,18 +194,35 @@ def run_big(spec):
             cps.add(k + 1)
     out = []
     err = None
+    p = consts["p"]
+    nlong = int(spec.get("long", 0))     # a block of very long values (64 KiB shared prefix + short distinct tail) at the end
+    long_hashes, long_own = [], []
+    lstep = max(1, nlong // 12)
     try:
         for k, v in enumerate(stream):
             h.add(v)
             if k in cps:
                 out.append([k, length(h), bool(h.hll_flag)])
+        prefix = "x" * spec.get("long_len", 65536)
+        for i in range(nlong):
+            v = prefix + "|" + str(i)
+            h.add(v)
+            ids.append(len(order) + i)
+            long_hashes.append(xxhash.xxh32(v.encode("utf-8"), seed=p).intdigest())     # hash of the FULL payload
+            long_own.append(own_oracle(consts["p"], consts["m"], consts["width"], [v])[0])
+            if i % lstep == 0 or i == nlong - 1 or i % 1000 == 7:
+                out.append([len(ids) - 1, length(h), bool(h.hll_flag)])
+            if i % 1000 == 7:           # re-adding one of the long values must change nothing
+                h.add(prefix + "|" + str(i - 3))
+                ids.append(len(order) + i - 3)
+                out.append([len(ids) - 1, length(h), bool(h.hll_flag)])
+        total = len(ids)
     except Exception as e:
         err = "%s: %s" % (type(e).__name__, e)
-    p = consts["p"]
-    hashes = np.array([xxhash.xxh32(as_bytes(v), seed=p).intdigest() for v in order], dtype=np.uint32)
+    hashes = np.array([xxhash.xxh32(as_bytes(v), seed=p).intdigest() for v in order] + long_hashes, dtype=np.uint32)
     res = {"ok": err is None, "error": err, "consts": consts, "checkpoints": out, "n_ops": total,
            "ids": b64(np.array(ids, dtype=np.uint32)), "hashes": b64(hashes), "cold": bool(h.hll_flag)}
-    own = own_oracle(consts["p"], consts["m"], consts["width"], order)
+    own = own_oracle(consts["p"], consts["m"], consts["width"], order) + long_own
     if all(o is not None for o in own):
         res["own_buckets"] = b64(np.array([o[0] for o in own], dtype=np.uint32))
         res["own_rhos"] = b64(np.array([o[1] for o in own], dtype=np.uint8))
@@ -211,7 +233,7 @@ def run_big(spec):
             res["regs_ok"] = bool(np.all((M >= 0) & (M < 256) & (M == np.floor(M))) and len(M) == h.m)
         else:
             res["set_size"] = len(h.warmup_set)
-            res["set_ok"] = bool(set(h.warmup_set) == set(order))
+            res["set_ok"] = bool(set(h.warmup_set) == set(order)) and nlong == 0
     return res
 
 
